@@ -1,9 +1,11 @@
 import Percival.Model.CpuPaths
+import Percival.Proofs.Sha256Extend
 /-! Helper lemmas for C03 (index arithmetic of `CRC32C_Update_SSE42`, GF(2) algebra of the `CRC32`
 instruction, SSE2 lane identities). -/
 namespace Percival.Proofs.CpuPaths
 open Percival Percival.Spec Percival.Model.CpuPaths
 open Percival.Spec.Crc32c (Poly addFront reduce mod castagnoli bitsLSB)
+
 
 /-! ## constants of the current source (proved again in `Properties/C03.lean` as obligations) -/
 
@@ -723,6 +725,7 @@ theorem schedule_explicit (b0 b1 b2 b3 b4 b5 b6 b7 b8 b9 b10 b11 b12 b13 b14 b15
   have hw : (wordsBE [b0, b1, b2, b3, b4, b5, b6, b7, b8, b9, b10, b11, b12, b13, b14, b15, b16, b17, b18, b19, b20, b21, b22, b23, b24, b25, b26, b27, b28, b29, b30, b31, b32, b33, b34, b35, b36, b37, b38, b39, b40, b41, b42, b43, b44, b45, b46, b47, b48, b49, b50, b51, b52, b53, b54, b55, b56, b57, b58, b59, b60, b61, b62, b63]).reverse = y.lanes.reverse ++ [] := by
     subst hy; rfl
   unfold Sha256.schedule
+  rw [← Sha256.extend_eq]
   rw [hw, show (48 : Nat) = 16 + 16 + 16 from rfl, extend_add, extend_add, extend16, extend16, extend16]
   simp [List.reverse_append]
 
